@@ -516,6 +516,17 @@ func (e *Exec) VerifyFunction(fn *ssa.Function, ctr *Contract) (err error) {
 		// free variables are pointers to captured variables
 		binds = append(binds, e.freshTyped("fv$"+fv.Name(), fv.Type(), st))
 	}
+	// the free variables of a closure are distinct variables: their cells do not alias
+	for i := range binds {
+		for j := i + 1; j < len(binds); j++ {
+			if binds[i].T != "" && binds[j].T != "" && binds[i].S == binds[j].S {
+				e.Out.Assert(Not(Eq(binds[i].T, binds[j].T)))
+			}
+		}
+		if binds[i].T != "" && binds[i].S == SInt {
+			e.Out.Assert(Not(Eq(binds[i].T, "0")))
+		}
+	}
 	fr := e.newFrame(fn, args, binds, 0, ctr)
 	fr.top = true
 	fr.entryState = e.entry
